@@ -12,3 +12,16 @@ for _f, _q in [("processor/context/snapshot_action.py", "SnapshotActionContext._
     c.modifies = lambda S_: [("all",)]
     c.sig("BaseException", "any-failure")
     c.coarse = True
+
+# results of actions: processed when the trigger context closes (refined by C09/C16/C20 specs)
+for _f, _q in [("processor/context/log_action.py", "LogActionResult.process"),
+               ("processor/context/snapshot_action.py", "SendSnapshotActionResult.process"),
+               ("processor/context/snapshot_action.py", "DeferredSnapshotActionResult.process"),
+               ("processor/context/span_action.py", "SpanResult.process")]:
+    c = contract(_f, _q, [])
+    c.param("self", OBJ(_q.split(".")[0], inv=False)).param("ctx", VAL)
+    c.result = VAL
+    c.logged = "ActionResult.process"
+    c.modifies = lambda S_: [("all",)]
+    c.sig("BaseException", "any-failure")
+    c.coarse = True
